@@ -305,11 +305,8 @@ func namedConfigs() []cfg {
 		c := base("dft-c2s2-s2c1-n9", 9)
 		c.C2S, c.S2C = rep(56, 2), rep(39, 1)
 		add(c)
-		c = base("dft-c2s-merged-n9", 9)
-		c.C2S, c.S2C = [][]int{{28, 28}, {56}}, [][]int{{39}, {39}}
-		add(c)
 		c = base("dft-s2c-merged-n9", 9)
-		c.C2S, c.S2C = rep(56, 3), [][]int{{30, 30}, {39}}
+		c.C2S, c.S2C = rep(56, 3), [][]int{{30, 30}, {60}}
 		add(c)
 		c = base("dft-deep-n9", 9)
 		c.C2S, c.S2C = rep(50, 5), rep(39, 4)
